@@ -182,7 +182,7 @@ func (l implLang) accepts(w string) bool {
 	return act == action && size == len(w)+1
 }
 
-// compile builds the tables for one parsed pattern. fatal != "" reports a crash.
+// compile builds the tables for one parsed pattern; crash != nil reports a panic or log.Fatal inside lex.Compile.
 func compile(re *lex.Regexp, text string, bytes bool) (t *lex.Tables, cerr error, crash error) {
 	b := 0
 	if bytes {
